@@ -3,7 +3,7 @@
 # every test listed as stable_pass in /root/.vp/BASELINE.json passes.
 export GOFLAGS=-mod=mod GOPROXY=off GOSUMDB=off GOTOOLCHAIN=local
 OUT=$(mktemp /var/tmp/verif-baseline.XXXXXX)
-(cd /repo/go && go test -json -vet=off -count=1 -timeout 25m ./... ) > "$OUT" 2>/dev/null
+(cd ${VERIF_REPO:-/repo}/go && go test -json -vet=off -count=1 -timeout 25m ./... ) > "$OUT" 2>/dev/null
 python3 - "$OUT" <<'PY'
 import json, sys
 passed = set()
